@@ -731,6 +731,29 @@ impl<'w> Exec<'w> {
             Ev::Request { .. } | Ev::RenameLoop { .. } | Ev::Idle | Ev::Checkpoint | Ev::Sem { .. } => pre_client.clone(),
             _ => self.client.clone(),
         };
+        if !base.deleted.is_empty() {
+            // modules that are gone or unreadable at the moment: the history server may still
+            // work with what it read of them before. Whether the *texts* are to blame is
+            // asked with those modules in place; a run discarded on that ground ends here.
+            let mut with_all = base.clone();
+            for (p, t) in base.deleted.iter() {
+                self.world.write(p, t);
+                with_all.disk.insert(p.clone(), t.clone());
+            }
+            let shared = !fresh_peer(self.world, &with_all).server.alive();
+            for p in base.deleted.keys() {
+                if self.unreadable.contains(p) {
+                    self.world.make_unreadable(p, 2);
+                } else {
+                    self.world.remove(p);
+                }
+            }
+            if shared {
+                self.stats.count("skipped_pipeline_crash", 1);
+                self.discarded = Some("refresh dies on a fresh server too (with the vanished modules in place)".into());
+                return;
+            }
+        }
         let mut fresh = fresh_peer(self.world, &base);
         if !fresh.server.alive() {
             self.stats.count("skipped_pipeline_crash", 1);
@@ -1517,6 +1540,17 @@ pub fn probe(scn: &Scenario, k: usize) -> Option<String> {
         }
         if let Ok(p) = std::env::var("OALSIM_PROBE_DUMP") {
             let _ = std::fs::write(p, serde_json::to_string_pretty(&client.effective_all()).unwrap_or_default());
+        }
+        let fresh = fresh_peer(&world, &client);
+        if fresh.server.death.is_some() || client.deleted.is_empty() {
+            return fresh.server.death.clone();
+        }
+        drop(fresh);
+        // modules that are gone or unreadable at that moment: the history server may still work
+        // with what it read of them before; are the *texts* to blame, then?
+        for (p, t) in client.deleted.clone() {
+            world.write(&p, &t);
+            client.disk.insert(p, t);
         }
         let fresh = fresh_peer(&world, &client);
         fresh.server.death.clone()
